@@ -6,6 +6,11 @@ import BM.Gen.SrcPins
 namespace BM.Props
 
 def C11_units : List (String × String) := [
+  ("sanitize.go/func/*Policy.Sanitize", "9ba7d669ac7a66cc"),
+  ("sanitize.go/func/*Policy.SanitizeBytes", "757e2ab378b5f7df"),
+  ("sanitize.go/func/*Policy.SanitizeReader", "08410f91f837f43a"),
+  ("sanitize.go/func/*Policy.SanitizeReaderToWriter", "567a76ba99acc83b"),
+  ("sanitize.go/func/*Policy.sanitizeWithBuff", "a00e1f64f0d0c903"),
   ("sanitize.go/func/*Policy.sanitizeAttrs/if:linkable(elementName)/if:(p.requireNoFollow || p.requireNoFollowFullyQualifiedLinks |", "2b17c4a72363ce0c"),
   ("sanitize.go/func/hasRelToken", "d88938df06d162a2"),
   ("sanitize.go/func/asciiEqualFold", "184516e10d84df87")
